@@ -25,4 +25,4 @@ json.dump({'Replace':repl},open(S+'/overlay.json','w'))
 PY
 (cd $REPO && go1.26.8 test -c -tags verif -vet=off -overlay $S/overlay.json -o $S/sim.test ./$3)
 mkdir -p $S/tmp
-cd $REPO/$3 && TMPDIR=$S/tmp VERIF_DIR=/verif VERIF_PROP=$1 VERIF_ONLY_RUN=$4 VERIF_SEED=${5:-1} VERIF_OUT=$S $S/sim.test -test.run '^TestVerifSim$' -test.cpu 1
+cd $REPO/$3 && TMPDIR=$S/tmp VERIF_DIR=/verif VERIF_PROP=$1 VERIF_ONLY_RUN=$4 VERIF_ONLY_RUN_TWICE=$TWICE VERIF_SEED=${5:-1} VERIF_OUT=$S $S/sim.test -test.run '^TestVerifSim$' -test.cpu 1
